@@ -166,7 +166,7 @@ func (fr *frame) runBlock(st *PState, b *ssa.BasicBlock, pred *ssa.BasicBlock, v
 			fr.evalPhis(st, b, pred)
 			if backEdge {
 				fr.assertInvariants(st, b, ord, invs, "inv-preserve")
-				fr.assertSteps(st, b, ord)
+				fr.assertSteps(st, b, ord, pred)
 				return
 			}
 			fr.assertInvariants(st, b, ord, invs, "inv-entry")
